@@ -156,6 +156,14 @@ class Interp:
                     ins = list(work.inputs)
                     t = [ins[op['x'] % len(ins)]] if ins else []
                     f = [ins[op['y'] % len(ins)]] if ins and ins[op['y'] % len(ins)] not in t else []
+                    if op.get('many') and len(ins) >= 2:
+                        # several inputs in one list, listed in an order of their own (not the circuit's input order)
+                        k = 2 + op['y'] % min(3, len(ins) - 1)
+                        t = [ins[(op['x'] + q * (1 + op['y'] % 3)) % len(ins)] for q in range(k)][::-1]
+                        t = list(dict.fromkeys(t))
+                        f = [] if op['y'] % 2 else [i for i in ins if i not in t][-1:]
+                        if op['x'] % 2:
+                            t, f = f, t
                     if op.get('non_input'):
                         t = [self._pick(work, op['x'])]
                     work.replace_inputs(t, f)
@@ -411,7 +419,7 @@ def make_machine(tier, hooks):
 
         @rule(c=I, x=I, y=I, non_input=st.integers(0, 7))
         def replace_inputs(self, c, x, y, non_input):
-            self._do({'op': 'replace_inputs', 'c': c, 'x': x, 'y': y, 'non_input': non_input == 0})
+            self._do({'op': 'replace_inputs', 'c': c, 'x': x, 'y': y, 'non_input': non_input == 0, 'many': non_input in (1, 2, 3)})
 
         @rule(c=I, j=I, from_pool=st.booleans(), right=st.booleans(), internal=st.booleans(),
               variant=st.sampled_from(['connect_circuit', 'connect_circuit', 'connect_circuit', 'connect_left', 'connect_right',
